@@ -1032,15 +1032,35 @@ func bulkLoad(r *Run, idx int, prop string) {
 	defer dst.store().Close()
 	base := map[int]int{0: 1 << 20, 1: int(srcM) / 2, 2: 0}[overlap]
 	fill := int(dstM) * (1 + rng.Intn(3)) / 3
+	// every third round the receiving cache's own writes are still queued when the load takes the policy lock: the
+	// policy lock is held while the keys are stored (their insert events wait in the write queue), the load is
+	// started, and only then is the lock let go
+	pending := idx%3 == 2 && fill < dst.store().VerifQueueCap()
+	if pending {
+		dst.store().VerifPolicyLock()
+	}
 	for i := 0; i < fill; i++ {
 		dst.set(base+i, int64(i)<<8|2, int64(1+rng.Intn(2)), time.Duration(rng.Intn(2))*time.Hour)
 	}
-	if !quiesce(dst) {
-		r.Inconclusive(1)
-		return
+	var lerr error
+	if pending {
+		done := make(chan struct{})
+		go func() { lerr = dst.load(1, &buf); close(done) }()
+		time.Sleep(2 * time.Millisecond) // the load is now waiting for the policy lock
+		dst.store().VerifPolicyUnlock()
+		<-done
+		if q := dst.store().VerifQueueLen(); q > 0 {
+			r.Count("bulk_loads_with_the_receiving_caches_own_insert_events_still_queued", 1)
+		}
+	} else {
+		if !quiesce(dst) {
+			r.Inconclusive(1)
+			return
+		}
+		lerr = dst.load(1, &buf)
 	}
-	if err := dst.load(1, &buf); err != nil {
-		r.Broken("load: %v", err)
+	if lerr != nil {
+		r.Broken("load: %v", lerr)
 		return
 	}
 	if !quiesce(dst) {
@@ -1080,7 +1100,7 @@ func bulkLoad(r *Run, idx int, prop string) {
 	}
 	r.Eval(1)
 	r.Count("bulk_load_rounds", 1)
-	r.Distinct(fmt.Sprintf("bulkload/%s/%d->%d/%s", kind, srcM, dstM, ov))
+	r.Distinct(fmt.Sprintf("bulkload/%s/%d->%d/%s/pending=%v", kind, srcM, dstM, ov, pending))
 }
 
 func c02StressDebug(r *Run) {
